@@ -1206,9 +1206,6 @@ def modelcorr(ctx, harness, model):
                     # the known array defect (probe `arrlen` still reproduces): an invalid value assigned to a non-writable length
                     ctx.stats["target_model_known_divergence_array_length_rangeerror"] = ctx.stats.get("target_model_known_divergence_array_length_rangeerror", 0) + 1
                     break
-                if l.split()[2] == "mta" and op.startswith("del/") and ha[i] == "T:TypeError" and ma[i] == "v:f":
-                    ctx.stats["target_model_known_divergence_ta_delete_throws"] = ctx.stats.get("target_model_known_divergence_ta_delete_throws", 0) + 1
-                    break      # goja: Reflect.deleteProperty(typedArray, validIndex) throws instead of returning false (typedarrays.go; not proxy.go)
                 bad.append((l, "op %d %s impl=%s" % (i, op, ha[i]), "model=%s" % ma[i]))
                 break
         else:
